@@ -235,3 +235,126 @@ Proof.
   intros H Hw Hdt S. destruct (item_is_union (in_item i)) eqn:U; [|reflexivity].
   pose proof (union_traits c r i w dt H U Hw Hdt). congruence.
 Qed.
+
+(* ---- discriminants and lengths of the parsed variants ---- *)
+Lemma data_from_variant_disc c id dws v d :
+  data_from_variant c id dws v = Ok d -> d_disc d = (if c_nightly c then None else rv_disc v).
+Proof.
+  unfold data_from_variant. intros H. inv_bind H.
+  destruct (rv_shape v); [inv_bind H | inv_bind H |]; inversion H; subst; reflexivity.
+Qed.
+
+Lemma Forall2_length' {A B} (R : A -> B -> Prop) l l' : Forall2 R l l' -> length l = length l'.
+Proof. induction 1; cbn; congruence. Qed.
+
+Lemma variants_discs c id dws rvs vs :
+  mapM (data_from_variant c id dws) rvs = Ok vs ->
+  length vs = length rvs /\ (c_nightly c = false -> map d_disc vs = map rv_disc rvs).
+Proof.
+  intros H. apply mapM_Forall2 in H. split.
+  - symmetry. eapply Forall2_length'; eauto.
+  - intros Hn. induction H as [|x y l l' Hxy H IH]; cbn; [reflexivity|].
+    rewrite IH. f_equal. apply data_from_variant_disc in Hxy. rewrite Hn in Hxy. assumption.
+Qed.
+
+(* ---- incomparable excludes Eq and Ord ---- *)
+Definition total_free (dws : list dw) : Prop :=
+  forall w dt, In w dws -> In dt (dw_traits w) -> dt_trait dt <> Eq /\ dt_trait dt <> Ord.
+
+Lemma incomparable_scan_total_free ts b r :
+  incomparable_scan ts b = Ok r -> forall dt, In dt ts -> dt_trait dt <> Eq /\ dt_trait dt <> Ord.
+Proof.
+  revert b; induction ts as [|t ts IH]; cbn; intros b H dt Hin; [contradiction|].
+  destruct Hin as [<-|Hin].
+  - destruct (dt_trait t); try discriminate; split; discriminate.
+  - destruct (dt_trait t); try discriminate; eapply IH; eauto.
+Qed.
+
+Lemma incomparable_add_true dws m self :
+  incomparable_add dws m self = Ok true -> self = true \/ total_free dws.
+Proof.
+  unfold incomparable_add. destruct m; try discriminate. destruct self; [discriminate|].
+  intros H. inv_bind H. right. intros w dt Hw Hdt.
+  eapply incomparable_scan_total_free; eauto. apply in_flat_map. eauto.
+Qed.
+
+Lemma incomparable_add_bool dws m self r : incomparable_add dws m self = Ok r -> r = true.
+Proof.
+  unfold incomparable_add. destruct m; try discriminate. destruct self; [discriminate|].
+  intros H. inv_bind H. destruct a; inversion H; reflexivity.
+Qed.
+
+Lemma variant_attr_incomparable c dws v va :
+  variant_attr_from_attrs c dws v = Ok va -> va_incomparable va = true -> total_free dws.
+Proof.
+  unfold variant_attr_from_attrs. intros H Hi.
+  assert (G : va_incomparable va = true -> False \/ total_free dws).
+  { eapply (foldM_inv (fun st => va_incomparable st = true -> False \/ total_free dws)); [| |exact H].
+    - cbn. discriminate.
+    - intros s a s' Hs Ha. unfold variant_add_attr in Ha. destruct a as [sa|p ts]; [|inversion Ha; subst; assumption].
+      inv_bind Ha.
+      eapply (foldM_inv (fun st => va_incomparable st = true -> False \/ total_free dws)); [exact Hs| |exact Ha].
+      intros s1 m s1' Hs1 Hm. unfold variant_add_meta in Hm.
+      destruct (meta1_is m "skip_inner").
+      { destruct (variant_fields_empty v); [discriminate|]. inv_bind Hm. inversion Hm; subst; cbn. assumption. }
+      destruct (meta1_is m "default").
+      { inv_bind Hm. inversion Hm; subst; cbn. assumption. }
+      destruct (meta1_is m "incomparable"); [|discriminate].
+      inv_bind Hm. inversion Hm; subst; cbn. intros Ht. subst.
+      match goal with Hx : incomparable_add _ _ _ = Ok true |- _ => apply incomparable_add_true in Hx; destruct Hx as [Hx|Hx]; [apply Hs1; assumption | right; assumption] end. }
+  destruct (G Hi) as [[]|T]. assumption.
+Qed.
+
+Lemma data_from_variant_incomparable c id dws v d :
+  data_from_variant c id dws v = Ok d -> d_incomparable d = true -> total_free dws.
+Proof.
+  unfold data_from_variant. intros H Hi. inv_bind H.
+  assert (va_incomparable a = true).
+  { destruct (rv_shape v); [inv_bind H | inv_bind H |]; inversion H; subst; cbn in Hi; assumption. }
+  eapply variant_attr_incomparable; eauto.
+Qed.
+
+Lemma item_attrs_incomparable c is_enum is_union attrs ia :
+  item_attr_from_attrs c is_enum is_union attrs = Ok ia -> it_incomparable ia = true -> total_free (it_dws ia).
+Proof.
+  unfold item_attr_from_attrs. intros H Hi. inv_bind H.
+  destruct (ia_dws a) eqn:Edws; [discriminate|]. rewrite <- Edws in *.
+  destruct (existsb (fun d => has_dup (dw_traits d)) (merge_dws (ia_dws a))); [discriminate|].
+  destruct (has_cross_dup (merge_dws (ia_dws a))); [discriminate|].
+  inv_bind H. inv_bind H. inversion H; subst; cbn in *.
+  assert (G : a1 = true -> False \/ total_free (merge_dws (ia_dws a))).
+  { eapply (foldM_inv (fun i => i = true -> False \/ total_free (merge_dws (ia_dws a)))); [| |exact Hb1].
+    - discriminate.
+    - intros s m s' Hs Hm Ht. subst s'. apply incomparable_add_true in Hm. destruct Hm as [Hm|Hm]; [apply Hs; assumption | right; assumption]. }
+  destruct (G Hi) as [[]|T]. assumption.
+Qed.
+
+(* an accepted item deriving Eq or Ord carries no incomparable marker at all *)
+Theorem total_no_incomparable c r i w dt :
+  from_input c r = Ok i -> In w (in_dws i) -> In dt (dw_traits w) -> (dt_trait dt = Eq \/ dt_trait dt = Ord) ->
+  item_inc_flag (in_item i) = false /\ forall d, In d (item_variants (in_item i)) -> d_incomparable d = false.
+Proof.
+  intros H Hw Hdt Ht. destruct (from_input_inv c r i H) as [ia [Hia [Edws [_ K]]]].
+  assert (NT : ~ total_free (it_dws ia)).
+  { intros T. rewrite <- Edws in T. destruct (T w dt Hw Hdt) as [T1 T2]. destruct Ht; contradiction. }
+  assert (Hitem : it_incomparable ia = false).
+  { destruct (it_incomparable ia) eqn:E; [|reflexivity]. exfalso. apply NT. eapply item_attrs_incomparable; eauto. }
+  destruct (ri_kind r).
+  - destruct K as [d [Hd ->]]. cbn.
+    assert (d_incomparable d = it_incomparable ia).
+    { unfold data_from_struct in Hd. destruct sh.
+      - destruct (match fs with [] => negb (it_incomparable ia) | _ => false end); [discriminate|]. inv_bind Hd. inversion Hd; reflexivity.
+      - destruct (match fs with [] => negb (it_incomparable ia) | _ => false end); [discriminate|]. inv_bind Hd. inversion Hd; reflexivity.
+      - destruct (it_incomparable ia); [|discriminate]. inversion Hd; reflexivity. }
+    rewrite H0, Hitem. split; [reflexivity|]. intros d' [<-|[]]. congruence.
+  - destruct K as [disc [pvs [fd [fi [Hvs [_ [_ [_ [_ ->]]]]]]]]]. cbn. split; [assumption|].
+    intros d Hd. destruct (d_incomparable d) eqn:E; [|reflexivity]. exfalso. apply NT.
+    apply mapM_Forall2 in Hvs.
+    assert (G : exists v, data_from_variant c (ri_name r) (it_dws ia) v = Ok d).
+    { clear - Hvs Hd. induction Hvs as [|x y l l' Hxy Hl IH]; [contradiction|]. destruct Hd as [<-|Hd]; eauto. }
+    destruct G as [v Hv]. eapply data_from_variant_incomparable; eauto.
+  - destruct K as [d [Hd ->]]. cbn.
+    assert (d_incomparable d = it_incomparable ia).
+    { unfold data_from_union in Hd. destruct (match fs with [] => negb (it_incomparable ia) | _ => false end); [discriminate|]. inv_bind Hd. inversion Hd; reflexivity. }
+    rewrite H0, Hitem. split; [reflexivity|]. intros d' [<-|[]]. congruence.
+Qed.
